@@ -117,6 +117,54 @@ CHECKS = {
         technique="Lean 4 proof (structural induction, acyclicity by depth function) + correspondence",
         design="§4 C18",
     ),
+    "C05": dict(
+        text="Lean theorems about a model of the write-back path (_add_zids + the NewZorgNotes / EditedZorgNotes handlers + note_utils line surgery): the "
+        "ZID is inserted right after the kind / priority prefix of the note's first line for every line of that shape, the rewrite touches only the first "
+        "lines of the listed notes (line count and every other line unchanged), split/join loses no character. Idempotence at store level is C06_quiescent. "
+        "Tied to the code by `db create` / `db reindex` on generated directories (new notes of every kind, long create dates, sections, several pages), "
+        "diffing every file byte against the model and against an independent reading; second reindex must change nothing.",
+        note=NOTE_STD + "File system atomic (crash windows are C13). Create dates outside 2000-2099 and a modify-date-like first word without ZID are recorded known findings.",
+        technique="Lean 4 proof (first-line surgery shape lemmas, minimal diff) + file-byte correspondence",
+        design="§4 C05",
+    ),
+    "C06": dict(
+        text="Lean theorems about an abstract store model (files, recorded hashes, indexed pages; operations edit / add / delete / rename / reindex(paths) / "
+        "plain reindex / create, page semantics a parameter with a stability hypothesis): the invariant `a page whose recorded hash matches is indexed as its "
+        "from-scratch page` is preserved by every operation sequence; after any history a plain reindex leaves exactly the from-scratch index of the current "
+        "files (C06_equiv), a second one changes nothing (C06_quiescent). Tied to the code by random histories (edits, moved items, added / deleted / renamed "
+        "pages, clock advances) on real directories: incremental index vs fresh `db create` of a copy, row by row.",
+        note=NOTE_STD + "The page semantics (compile + write-back) is a parameter: its stability (reindexing a written-back page is a no-op) is validated by C05's runs; SQLite atomic per commit.",
+        technique="Lean 4 proof (store invariant by induction over operation histories, refinement to from-scratch index) + history correspondence",
+        design="§4 C06",
+    ),
+    "C10": dict(
+        text="Lean theorems about the model of note_utils.add_note / delete_note (insertion index by create date, header-only / no-trailing-newline pages, "
+        "first-line recognition at identity position): the source loses exactly the moved note's block (prefix and suffix lines untouched), the destination "
+        "gains the note once and keeps every line in order for every page shape. Tied to the code by `note move`/`note promote` style runs on generated "
+        "directories (ZIDs mentioned in other notes, multi-line notes, template-created destinations), diffing source and destination bytes against the model and an independent oracle.",
+        note=NOTE_STD + "File writes atomic; the move is two writes (crash between them is C13).",
+        technique="Lean 4 proof (list surgery lemmas: block removal, order-preserving insertion) + file-byte correspondence",
+        design="§4 C10",
+    ),
+    "C11": dict(
+        text="Lean theorems about the modify-date decision and stamp: a freshly compiled note is stamped iff it carries a ZID the previous index held with a "
+        "different state; new and unchanged notes are never stamped; the stamp is inserted in front of the ZID for every first line of the note shape; a "
+        "later stamp replaces the earlier one; all other lines byte-identical. Tied to the code by edit histories under a frozen, advancing clock: which "
+        "notes got stamped, with which day, and the file bytes, against the model and an independent reading.",
+        note=NOTE_STD + "Note equality = the dataclass comparison of the compiled notes, modelled as equality of the compared fields (validated by the histories).",
+        technique="Lean 4 proof (stamp decision iff, first-line surgery) + history correspondence",
+        design="§4 C11",
+    ),
+    "C17": dict(
+        text="Lean theorems about a model of run_action_open: the scan with its state variable equals the declarative target list of the statement (prefix words "
+        "skipped, primary ZID left out, every later link / ZID offered in order), every answer line is a protocol message, one target is opened directly, "
+        "several are offered through PROMPT, option k / -1 answers like a one-target line, out-of-range options fail without output, page links open "
+        "zdir/p(.zo) (+ anchor search), ZID / ID / RID targets open the page given by the index lookup. Tied to the code by `zorg action open` on "
+        "generated lines in .zo and .zoq pages of indexed directories against the model and an independent oracle.",
+        note=NOTE_STD + "Index lookups are parameters computed from the raw SQLite rows; named-URL links and cite keys (external programs) are modelled but not exercised.",
+        technique="Lean 4 proof (scan = declarative spec, dispatch case analysis) + CLI correspondence",
+        design="§4 C17",
+    ),
     "C07": dict(
         text="Lean theorems about a model of _zid_manager.py transcribed character by character (odometer rank induction: "
         "uniqueness for every allocation sequence and restart pattern, shape, exhaustion point; the generated exclusion list "
